@@ -259,6 +259,8 @@ func oracleC15(cfg []string, results []string) string {
 			}
 		case a == "stopstorm":
 			return fmt.Sprintf("fail:Stop did not return while clients kept connecting (%s at step %d)", r, i)
+		case (a == "stop" || a == "restart") && (v == "hang" || v == "HANG"):
+			return fmt.Sprintf("fail:%s did not return within its watchdog (%s at step %d)", a, r, i)
 		case (a == "ping:p" || a == "ping:t") && running && v != "ok":
 			return fmt.Sprintf("fail:after a successful Start/Restart the server does not serve (%s at step %d)", r, i)
 		case strings.HasPrefix(a, "open:p") && running && v != "ok":
@@ -367,6 +369,9 @@ func oracleC19(cfg []string, results []string) string {
 		kv := strings.SplitN(r, "=", 2)
 		a, v := kv[0], kv[1]
 		f := strings.Split(a, ":")
+		if (f[0] == "stop" || f[0] == "restart") && (v == "hang" || v == "HANG") {
+			return fmt.Sprintf("fail:%s did not return within its watchdog: what it waits for was not released (%s at step %d)", f[0], r, i)
+		}
 		switch f[0] {
 		case "start", "restart":
 			if v == "ok" {
